@@ -8,6 +8,7 @@ CONSTANTS
   MinTotal = 0
   Leaky = FALSE
   Alphabet <- AllCmds
+  PreAlphabet <- AllCmds
   Kinds <- AllKinds
   Ctxs <- MainCtx
 INIT Init
